@@ -138,6 +138,7 @@ pub enum Signal {
     Impulse(Vec<i64>),
     Poly(Vec<f64>),
     Big, // noise with huge dynamic range
+    Fade, // noise fading out through the subnormal range down to exact zero
 }
 
 pub struct Inst<T: Smp> {
@@ -178,6 +179,17 @@ fn sample_at(sig: &Signal, seed: u64, ch: usize, n: i64) -> f64 {
             let h = splitmix(seed ^ splitmix((ch as u64) << 40 ^ (n as u64)));
             let e = ((h >> 8) % 41) as i32 - 20;
             (((h >> 44) as f64) / 524288.0 - 1.0) * (2.0f64).powi(e)
+        }
+        Signal::Fade => {
+            let h = splitmix(seed ^ splitmix((ch as u64) << 40 ^ (n as u64)));
+            let v = ((h >> 44) as f64) / 524288.0 - 1.0;
+            // one binade every 2 frames: f32 subnormals from frame ~250, f64 subnormals from ~2040
+            let e = -(n / 2) as i32;
+            if e < -1100 {
+                0.0
+            } else {
+                v * (2.0f64).powi(e.max(-1022)) * (2.0f64).powi((e + 1022).min(0))
+            }
         }
         Signal::Impulse(at) => {
             if at.contains(&n) {
@@ -320,6 +332,7 @@ pub fn build<T: Smp>(op: &Value) -> (Option<Inst<T>>, Value) {
     let signal = match gs(op, "signal", "index") {
         "noise" => Signal::Noise,
         "big" => Signal::Big,
+        "fade" => Signal::Fade,
         "zero" => Signal::Zero,
         "impulse" => Signal::Impulse(
             op.get("imp")
@@ -1027,6 +1040,28 @@ impl<T: Smp> Inst<T> {
         cx.emit(ev);
     }
 
+    /// input_buffer_allocate / output_buffer_allocate: lengths and capacities of what they return
+    pub fn op_alloc(&mut self, op: &Value, cx: &mut Ctx) {
+        let pre = getters(&self.res);
+        let mut ev = json!({"ev":"alloc","id":gi(op,"id",0),"pre":pre});
+        call_defaults(ev.as_object_mut().unwrap());
+        let lens = |b: &Vec<Vec<T>>| -> Value {
+            json!([b.len() as i64,
+                   b.iter().map(|v| v.len()).min().unwrap_or(0) as i64,
+                   b.iter().map(|v| v.len()).max().unwrap_or(0) as i64,
+                   b.iter().map(|v| v.capacity()).min().unwrap_or(0) as i64])
+        };
+        let m = ev.as_object_mut().unwrap();
+        m.insert("in_filled".into(), lens(&self.res.in_alloc(true)));
+        m.insert("in_empty".into(), lens(&self.res.in_alloc(false)));
+        m.insert("out_filled".into(), lens(&self.res.out_alloc(true)));
+        m.insert("out_empty".into(), lens(&self.res.out_alloc(false)));
+        m.insert("res".into(), json!("ok"));
+        m.insert("post".into(), getters(&self.res));
+        m.insert("priv".into(), privs(&self.res));
+        cx.emit(ev);
+    }
+
     pub fn op_simple(&mut self, op: &Value, cx: &mut Ctx) {
         let name = gs(op, "op", "getters").to_string();
         let pre = getters(&self.res);
@@ -1292,6 +1327,7 @@ fn exec_op(insts: &mut Vec<Option<Slot>>, op: &Value, cx: &mut Ctx) {
         return;
     }
     match name {
+        "alloc" => with!(i => i.op_alloc(op, cx)),
         "process" | "partial" | "bad" => with!(i => i.op_process(op, cx)),
         "set_ratio" => with!(i => i.op_set_ratio(op, cx, orig, maxrel)),
         "reset" | "set_chunk" | "getters" => with!(i => i.op_simple(op, cx)),
